@@ -3,7 +3,7 @@ needed-set oracle.  Shares no code with uberjob (it reads the spec, never uberjo
 import collections
 
 from vlib import specs
-from vlib.specs import R, Term, W
+from vlib.specs import R, SideRead, Term, W
 
 
 class RefFailure(Exception):
@@ -46,6 +46,8 @@ class Ref:
             elif beh["t"] == "seq":
                 v = tuple(args)
             else:
+                if nd.get("sread") is not None:
+                    args = args + [SideRead(nd["sread"], self.raw(nd["sread"]))]
                 v = Term(i, args, kwargs)
         elif k == "lit":
             for d in nd["deps"]:
